@@ -118,7 +118,8 @@ def _iv_slices(tier, seed):
     """list of (slice name, genomes, max intervals, orders)"""
     if tier == 'quick':
         return [('a:<=2 contigs size<=3, 3 contigs size<=2; <=2 intervals', M.genomes(2, 3) + M.genomes(3, 2, 3), 2, 'sorted+reversed'),
-                ('b:1 contig size 4; <=3 intervals', [(4,)], 3, 'sorted+reversed')]
+                ('b:1 contig size 4; <=3 intervals', [(4,)], 3, 'sorted+reversed'),
+                ('c:2 contigs size<=2; <=3 intervals in EVERY order (also not grouped by contig)', M.genomes(2, 2), 3, 'all')]
     return [('a1:<=2 contigs size<=3; <=3 intervals', M.genomes(2, 3), 3, 'all'),
             ('a2:3 contigs size<=3; <=2 intervals', M.genomes(3, 3, 3), 2, 'all'),
             ('a3:3 contigs size<=2; <=3 intervals', M.genomes(3, 2, 3), 3, 'all'),
